@@ -172,8 +172,16 @@ func (s *BlockchainRpcTxWatcher) StartBlockWatcher() error {
 
 // HandleCsvTx looks for transactions that have enough confirmations to be spend using the csv path
 func (s *BlockchainRpcTxWatcher) HandleCsvTx(blockheight uint64) error {
-	var toRemove []string
+	// Only look at the list under the lock. The callback runs the state machine
+	// of the swap, which may itself be waiting for this lock (a swap that is
+	// handling a message registers its csv watch while it holds its own mutex).
+	type dueTx struct {
+		swapId string
+		info   SwapTxInfo
+	}
+	var due []dueTx
 	s.Lock()
+	callback := s.csvPassedCallback
 	for k, v := range s.csvtxWatchList {
 		res, err := s.blockchain.GetTxOut(v.TxId, v.TxVout)
 		if err != nil {
@@ -186,18 +194,23 @@ func (s *BlockchainRpcTxWatcher) HandleCsvTx(blockheight uint64) error {
 		if v.Csv > res.Confirmations {
 			continue
 		}
-		if s.csvPassedCallback == nil {
-			continue
-		}
-		err = s.csvPassedCallback(k)
-		if err != nil {
-			log.Infof("csv passed callback err: %v. swap id: %s, tx id: %s, starting block height: %d",
-				err, k, v.TxId, v.StartingBlockHeight)
-			continue
-		}
-		toRemove = append(toRemove, k)
+		due = append(due, dueTx{swapId: k, info: *v})
 	}
 	s.Unlock()
+	if callback == nil {
+		return nil
+	}
+
+	var toRemove []string
+	for _, d := range due {
+		err := callback(d.swapId)
+		if err != nil {
+			log.Infof("csv passed callback err: %v. swap id: %s, tx id: %s, starting block height: %d",
+				err, d.swapId, d.info.TxId, d.info.StartingBlockHeight)
+			continue
+		}
+		toRemove = append(toRemove, d.swapId)
+	}
 	s.TxClaimed(toRemove)
 	return nil
 }
